@@ -26,6 +26,7 @@ type deployShape struct {
 	wait     *ssa.Call // lb.WaitUntilHealthy(...)
 	waitErr  ssa.Value
 	update   *ssa.Call // service.UpdateLoadBalancer(lb, slot)
+	restores []*ssa.Call // service.UpdateLoadBalancer(replaced, slot): undo on a failing path
 	install  *ssa.Call // r.installService(service)
 	instErr  ssa.Value
 	replaced ssa.Value
@@ -49,9 +50,30 @@ func (c *Ctx) deployShape(rule string) *deployShape {
 	}
 	d.newLB = one(c.fn("NewLoadBalancer"), "NewLoadBalancer")
 	d.wait = one(c.method("LoadBalancer", "WaitUntilHealthy"), "LoadBalancer.WaitUntilHealthy")
-	d.update = one(c.method("Service", "UpdateLoadBalancer"), "Service.UpdateLoadBalancer")
 	d.install = one(c.method("Router", "installService"), "Router.installService")
-	if d.newLB == nil || d.wait == nil || d.update == nil || d.install == nil {
+	if d.newLB == nil || d.wait == nil || d.install == nil {
+		return nil
+	}
+	// the publishing slot update is the one that stores the new balancer; any
+	// other call must put back the value the publishing call returned (undo)
+	for _, cs := range callsTo(fn, c.method("Service", "UpdateLoadBalancer")) {
+		call, ok := cs.instr.(*ssa.Call)
+		if !ok {
+			c.undecided(rule, "deployTargetsIntoService/UpdateLoadBalancer", cs.pos(), "slot update by go/defer (unrecognised form)")
+			return nil
+		}
+		if call.Call.Args[1] == ssa.Value(d.newLB) {
+			if d.update != nil {
+				c.undecided(rule, "deployTargetsIntoService/UpdateLoadBalancer", cs.pos(), "the new balancer is published twice (unrecognised form)")
+				return nil
+			}
+			d.update = call
+		} else {
+			d.restores = append(d.restores, call)
+		}
+	}
+	if d.update == nil {
+		c.undecided(rule, "deployTargetsIntoService/UpdateLoadBalancer", fn.Pos(), "no slot update publishing the value of NewLoadBalancer found (unrecognised form)")
 		return nil
 	}
 	d.waitErr = errResultOf(d.wait)
@@ -91,6 +113,12 @@ func r011(c *Ctx) {
 		c.ob(rule, "deploy/publisher:"+calleeName(pub.Common()), pub.Pos(), isNil, true,
 			"publisher must be reachable only through the nil-error branch of lb.WaitUntilHealthy")
 	}
+	for _, rs := range d.restores {
+		_, instFailed := nilKnowledge(rs, sameAs(d.instErr))
+		ok := rs.Call.Args[1] == ssa.Value(d.update) && rs.Call.Args[0] == d.update.Call.Args[0] && rs.Call.Args[2] == d.update.Call.Args[2] && instFailed
+		c.ob(rule, "deploy/slot-undo-restores-replaced-balancer", rs.Pos(), ok, true,
+			"any further slot update in the deploy routine must put the replaced balancer back into the same slot of the same service, on the branch where installService failed")
+	}
 	// the failing branch reports failure, disposes the new balancer, publishes nothing
 	dispose := c.method("LoadBalancer", "Dispose")
 	n := 0
@@ -100,7 +128,7 @@ func r011(c *Ctx) {
 			continue
 		}
 		n++
-		res := ret.Results[len(ret.Results)-1]
+		res := lastRet(ret)
 		c.ob(rule, "deploy/unhealthy-branch-returns-error", ret.Pos(), !isNilConst(res), true,
 			"on the unhealthy branch the command must report a non-nil error")
 		disposed := false
@@ -201,7 +229,7 @@ func r013(c *Ctx) {
 	// every nil return is after the join and on the not-failed branch
 	nilReturns := 0
 	for _, ret := range normalReturns(fn) {
-		if !isNilConst(ret.Results[0]) {
+		if !isNilConst(retVal(ret, 0)) {
 			continue
 		}
 		nilReturns++
@@ -425,21 +453,51 @@ func r014(c *Ctx) {
 			}
 			nclose++
 			okOwner := outer(fn) == hcc
-			facts := intFacts(cs.instr, matchFieldLoad(stateF))
-			wasAdding := false
-			for _, f := range facts {
-				if f.op == token.EQL && f.k == adding {
-					wasAdding = true
+			// the facts that license a release: success==true and state==adding
+			licensed := func(at ssa.Instruction) bool {
+				wasAdding := false
+				for _, f := range intFacts(at, matchFieldLoad(stateF)) {
+					if f.op == token.EQL && f.k == adding {
+						wasAdding = true
+					}
+				}
+				succT := false
+				for _, p := range outer(at.Parent()).Params {
+					if p.Name() == "success" {
+						succT, _ = boolFacts(at, matchResolved(p))
+					}
+				}
+				return wasAdding && succT
+			}
+			ok = licensed(cs.instr)
+			how := "directly under success==true and state==adding"
+			if !ok {
+				// or through a local flag that is set only under those facts
+				for _, ce := range dominatingConds(cs.instr.Block()) {
+					cell := cellOfLoad(ce.cond)
+					if cell == nil || !ce.taken {
+						continue
+					}
+					all := true
+					nTrue := 0
+					for _, st := range storesToCell(cell) {
+						b, isConst := constBool(st.Val)
+						switch {
+						case isConst && !b:
+						case isConst && b && licensed(st):
+							nTrue++
+						default:
+							all = false
+						}
+					}
+					if all && nTrue >= 1 {
+						ok = true
+						how = "through local flag '" + cell.Comment + "' set only under success==true and state==adding"
+					}
 				}
 			}
-			succT := false
-			for _, p := range outer(fn).Params {
-				if p.Name() == "success" {
-					succT, _ = boolFacts(cs.instr, matchResolved(p))
-				}
-			}
-			c.ob(rule, "close(becameHealthy) in "+fname(outer(fn)), cs.pos(), okOwner && wasAdding && succT, true,
-				"becameHealthy may be closed only in HealthCheckCompleted, under success==true and state==adding (hence at most once per target)")
+			c.ob(rule, "close(becameHealthy) in "+fname(outer(fn)), cs.pos(), okOwner && ok, true,
+				"becameHealthy may be closed only in HealthCheckCompleted, under success==true and state==adding (hence at most once per target): "+how)
 		}
 	}
 	c.ob(rule, "close(becameHealthy)/exists", hcc.Pos(), nclose >= 1, false, "waiters must be released somewhere")
@@ -452,7 +510,7 @@ func r014(c *Ctx) {
 	}
 	sel := sels[0]
 	for _, ret := range normalReturns(wfn) {
-		b, isConst := constBool(ret.Results[0])
+		b, isConst := constBool(retVal(ret, 0))
 		if !isConst {
 			c.undecided(rule, "Target.WaitUntilHealthy/return", ret.Pos(), "non-constant result (unrecognised form)")
 			continue
@@ -617,7 +675,7 @@ func r016(c *Ctx) {
 	// nextTarget returns nil or an element of lb.healthy
 	nt := c.method("LoadBalancer", "nextTarget")
 	for _, ret := range normalReturns(nt) {
-		for _, src := range phiSources(ret.Results[0]) {
+		for _, src := range phiSources(retVal(ret, 0)) {
 			ok := isNilConst(src)
 			if u, isU := src.(*ssa.UnOp); isU && u.Op == token.MUL {
 				if ia, isIA := u.X.(*ssa.IndexAddr); isIA && isLoadOfField(ia.X, healthyF) {
